@@ -357,3 +357,8 @@ def run(ck, F, tier):
     from . import mblayer, c12
     mblayer.run_for(ck, F, 'MB.', ['tcoef', 'mcbpc_i', 'mcbpc_p', 'cbpy'], ['macroblock', 'dquant', 'mv', 'block'])
     c12.c_mvd_table(Scoped(ck, 'C12.'), F)
+    # .. and where the picture layer ends: every header field with its width and presence condition (C06, whole); and the reads themselves deliver the
+    # bits they consume (C14 A, G, H, W)
+    from . import c06
+    c06.run(Scoped(ck, 'C06.'), F, tier)
+    c14.a_who_moves(s14, F); c14.g_vlc(s14, F); c14.h_msb_first(s14, F); c14.w_width_prologue(s14, F)
